@@ -68,6 +68,10 @@ func TestC10(t *testing.T) {
 		if h.R.Halted {
 			return
 		}
+		// the node option keep_last_states (how many old state versions stay on disk; 1 is the
+		// smallest value the command line accepts) decides what a restarted node can still load
+		h.N.KeepStates = int64(rapid.SampledFrom([]int{1, 1, 2, 120}).Draw(t, "keepLastStates"))
+		sim.S.Label(fmt.Sprintf("C10/keep_last_states=%d", h.N.KeepStates))
 		base := h.N.Fork() // state at h-1
 		hh := h.N.LastHeight + 1
 		// block h and the followers are generated on the primary node and recorded
@@ -113,9 +117,19 @@ func TestC10(t *testing.T) {
 			if crashed != (k < W) {
 				t.Fatalf("harness: crash point %d of %d fired=%v", k, W, crashed)
 			}
-			x.Restart()
-			info := x.App.Info(abci.RequestInfo{})
 			where := fmt.Sprintf("crash before write #%d of %d (%s) while committing %d", k, W, at(writeLog, k), hh)
+			if msg := func() (msg string) {
+				defer func() {
+					if p := recover(); p != nil {
+						msg = fmt.Sprint(p)
+					}
+				}()
+				x.Restart()
+				return ""
+			}(); msg != "" {
+				violation(t, "crash-unrecoverable", h.R, "%s (keep_last_states=%d): the node does not start again: %s", where, h.N.KeepStates, trunc(msg, 400))
+			}
+			info := x.App.Info(abci.RequestInfo{})
 			switch uint64(info.LastBlockHeight) {
 			case hh - 1:
 				// the consensus engine resends block h
